@@ -222,6 +222,20 @@ func runC04MatrixInner(c c04Case) evid.Outcome {
 		f.Msg += "\n--- source ---\n" + c.Src
 		return evid.Outcome{Fail: f}
 	}
+	if strings.HasPrefix(c.Label, "stmt validate-") && r.Status >= 400 && r.Status < 500 {
+		// `? f(x)` refuses the request when f(x) is false. When f(x) FAULTS that is an error of the
+		// program, not the caller's mistake: the same call as a plain expression shows which it is.
+		if m := regexp.MustCompile(`\? (ok\w+|isNull)\(a\)\n  > 1`).FindStringSubmatch(c.Src); m != nil {
+			plain := strings.Replace(c.Src, m[0], "> "+m[1]+"(a)", 1)
+			if ps, err := newVServer(plain, c.Mode == "interpreted"); err == nil {
+				pr := ps.do(httptest.NewRequest("GET", c04MatrixURL, nil))
+				ps.shutdown()
+				if pr.Status >= 500 {
+					return evid.Failf("c04.fault-reported-as-caller-mistake", "%s [%s]: the checked call faults (as a plain expression it answers %d), yet the validation statement answers %d %s\n--- source ---\n%s", c.Label, c.Mode, pr.Status, r.Status, strings.TrimSpace(r.Body), c.Src)
+				}
+			}
+		}
+	}
 	lab := fmt.Sprintf("status:%dxx", r.Status/100)
 	return evid.Outcome{Nontrivial: r.Status >= 400, Labels: []string{lab, "mode:" + c.Mode, "class:" + strings.SplitN(c.Label, " ", 2)[0]}}
 }
